@@ -21,6 +21,8 @@ pub mod lshim;
 pub mod gen_leader;
 pub mod rshim;
 pub mod gen_repl;
+pub mod fshim;
+pub mod gen_follower;
 
 /// exact-size Vec of 0..=3 elements (no push: see DESIGN 2b)
 pub fn h_vec3<T>(n: usize, mut f: impl FnMut(usize) -> T) -> Vec<T> {
